@@ -95,7 +95,7 @@ PROPS = {
     "C01": {
         "title": "Supply changes only by scheduled mint minus configured burn",
         "model": "Minter.v begin_block; Distributor.v bank (transfer, burn), dist_begin_block; Vest.v step (bank part)",
-        "runs": [app(100, 5000), distr("", 120, 5000), vest("", 40, 2000)],
+        "runs": [app(100, 5000), distr("", 120, 5000), vest("", 40, 2000), minter(60, 3000)],
         "preds": ["C01.", "C03.conservation", "C03.state_sum_equals_balance"],   # books above the balance = coins booked (and burned from) that were never collected
         "rule": APP_RULE + " | module-mode distributor and vesting generators as for C03 / C05",
         "level_text": "Coq theorems: the minter's block adds exactly the minted amount (the growth of the schedule counters) to the supply; one whole "
@@ -129,7 +129,7 @@ PROPS = {
                  {"kind": "sweep", "profile": "clock", "n_quick": 1, "n_thorough": 1, "per_shard": 1000},
                  {"kind": "upgrade", "profile": "handler", "n_quick": 30, "n_thorough": 600, "per_shard": 20, "env": {"TZ": "UTC"}}],
         "preds": ["C11."],
-        "rule": APP_RULE + "; C11: every history is executed in three separate OS processes with different TZ, GOMAXPROCS and node-local x/crisis settings (one skips the "
+        "rule": APP_RULE + "; C11: every history is executed in three separate OS processes with different TZ, GOMAXPROCS and node-local x/crisis settings; one of them is stopped and started again over its database before two blocks of every history (one skips the "
                 "genesis assertion of the invariants, one checks the invariants after every block); app hash after every Commit, "
                 "DeliverTx (code, codespace, data, events) and BeginBlock/EndBlock events are compared line by line; the v1.2.0 upgrade functions run on "
                 "generated pre-upgrade stores in processes with TZ=Europe/Warsaw and TZ=America/St_Johns, and the account records they write are compared with "
@@ -161,7 +161,7 @@ PROPS = {
     "C03": {
         "title": "Distributor books always match the coins it holds",
         "model": "Distributor.v: prepare_source, start_distribution, payout_all, dist_begin_block",
-        "runs": [distr("", 320, 12000), distr("updates", 80, 3000)],
+        "runs": [distr("", 320, 12000), distr("updates", 80, 3000), app(60, 3000)],
         "preds": ["C03."],
         "rule": DISTR_RULE,
         "partial": ["the hypotheses of the history theorem that are not consequences of validation are the two known-finding classes (sources in order = not K1, "
@@ -310,13 +310,14 @@ PROPS = {
     },
     "C06": {
         "title": "Pool time-lock",
-        "model": "Vest.v: withdraw_all, withdrawable, step",
+        "model": "Vest.v: withdraw_all, withdrawable, send_to_vesting_account, step",
         "runs": [vest("pools", 160, 4000)],
         "preds": ["C06."],
         "rule": VEST_RULE,
         "level_text": "Coq theorems over the executable pool model (all pools, times, operation kinds): nothing withdrawable before lock end, "
                       "withdraw-all pays exactly the matured remainders, repeated withdrawal pays zero, query = paid, a locked pool's ledger "
-                      "changes only through a send into a brand-new continuous vesting account; the model is compared with the real message "
+                      "changes only through a send into a brand-new continuous vesting account; a send starts with the same withdrawal as a withdraw-all "
+                      "(after it every matured pool is empty and a repeated withdrawal pays zero: SendWithdraw.v); the model is compared with the real message "
                       "server on generated histories on every run.",
     },
     "C07": {
@@ -415,15 +416,19 @@ PROPS = {
     },
     "C17": {
         "title": "Genesis lineage of vesting accounts and vesting summaries are accurate",
-        "model": "Vest.v: traces in send/split, summary; AccountsProofs.v: Derived",
+        "model": "Vest.v: traces in send/split, summary; AccountsProofs.v: Derived; UpgradeTraces.v: migrate_traces, mark_traces (the recorded accounts through the v1.2.0 upgrade)",
         "runs": [vest("", 120, 4000), vest("split", 80, 3000),
                  {"kind": "upgrade", "profile": "", "n_quick": 150, "n_thorough": 5000, "per_shard": 20, "env": {"TZ": "UTC"}},
+                 {"kind": "upgrade", "profile": "handler", "n_quick": 30, "n_thorough": 600, "per_shard": 20, "env": {"TZ": "UTC"}},
                  vgenesis(120, 4000)],
         "preds": ["C17."],
         "rule": VEST_RULE + "; the harness keeps an independent lineage oracle and recomputes both summaries from bank/auth state; the v1.2.0 upgrade on generated legacy stores (where the genesis marks of the pools come from)",
         "level_text": "Coq theorems: for every history (any length, any depth of split chains) an address is recorded genesis-derived iff it is "
                       "Derived (inductive definition of the property) — both directions; both summary queries equal the sums recomputed from "
                       "account and bank state, delegated = sum of min(vesting, delegated vesting), pools = ledger total in every solvent world. "
-                      "Trace table and both queries are compared with the model and with an independent oracle on every generated history.",
+                      "Trace table and both queries are compared with the model and with an independent oracle on every generated history. Where the lineage of the "
+                      "accounts recorded before v1.2.0 comes from (C17_upgrade_records_the_documented_lineage): on every v1.1.0 store the handler's migration followed by "
+                      "its marking records every account under its address with its id and exactly the documented flags; compared with the real functions "
+                      "(and with the whole registered handler) on generated legacy stores.",
     },
 }
